@@ -116,6 +116,30 @@ def run_case(case, rec):
         if k >= 2 or worst[key][0] > 1e-3:
             pt, got, want = worst[key][1]
             bad(key[0], "mismatch", key[1], pt, got, want)
+    # parameters updated after differentiation: the gradient expressions built above, and fresh gradient() calls on the
+    # same expression (memoised), must follow the current values
+    pnames = sorted(b.params)
+    if any(x[0] in ("par", "pel") for x in A.walk(node)) and pnames:
+        newvals = {pn: [0.75, -1.25, 2.25, 0.5, 0.0, 1.0][(i + len(V)) % 6] for i, pn in enumerate(pnames)}
+        for pn, nv in newvals.items():
+            b.params[pn].set(nv)
+        pt = case["points"][0]
+        j, t = R.ref_jet(D, node, V, pt, order=1, params=newvals)
+        if t.regular() and np.all(np.isfinite(j.g)):
+            for idx, (nm, vo) in enumerate(zip(V, Vobjs)):
+                want = float(j.g[idx])
+                for label, gexpr in (("earlier-gradient-after-set", grads.get(("recursive", nm))), ("fresh-gradient-after-set", None)):
+                    try:
+                        if gexpr is None:
+                            gexpr = AD.gradient(e, vo)
+                        got = _scalar(gexpr.evaluate(dict(pt)))
+                    except Exception as ex:
+                        bad(label, "raises:" + type(ex).__name__, nm, pt, ex=ex)
+                        continue
+                    rec.cmp(1, f"{fam}|{'occurring' if nm in used else 'non-occurring'}")
+                    rec.events["after-set-comparisons"] += 1
+                    if not close(got, want, RTOL, max(t.mag, t.dmag))[0]:
+                        bad(label, "mismatch", nm, pt, got, want)
     rec.sample({**X.show(case), "wrt": V})
 
 
